@@ -1,5 +1,6 @@
 // symx engine — symbolic mode.  Compiled WITHOUT the `double` substitution.
 #include "sx.h"
+#include <execinfo.h>
 #include <z3++.h>
 #include <algorithm>
 #include <unordered_map>
@@ -592,7 +593,7 @@ static void record_violation(const std::string& label, const std::string& kind, 
 // divisor != 0: if zero is feasible under the path condition it is reported (policy) and assumed away
 static void guard_nonzero(const z3::expr& zq, const Poly& q0) {
   Engine& e = E();
-  { int sg; if (p_is_const(q0) && const_sign(q0, sg)) { if (sg == 0) throw Abort{Abort::Fault, "division by zero (constant divisor)"}; return; } }
+  { int sg; if (p_is_const(q0) && const_sign(q0, sg)) { if (sg == 0) { if (getenv("SX_TRACE")) { void* bt[40]; int n = backtrace(bt, 40); backtrace_symbols_fd(bt, n, 2); } throw Abort{Abort::Fault, "division by zero (constant divisor)"}; } return; } }
   std::set<Var> qv; vars_of(q0, qv);
   z3::expr c = (zq == 0);
   z3::check_result r = query(&c, qv, e.pol.aux_timeout_ms, e.pol.div0_is_violation);
@@ -669,6 +670,7 @@ static SymReal quot_sym(const Poly& num, const Poly& den) {
   mpq_class c;
   if (p_is_rational(den, &c)) {
     if (c == 0) {
+      if (getenv("SX_TRACE")) { void* bt[40]; int n = backtrace(bt, 40); backtrace_symbols_fd(bt, n, 2); }
       throw Abort{Abort::Fault, "division by zero (constant divisor)"};
     }
     return mk(p_scale(num, 1 / c));
